@@ -128,6 +128,7 @@ def main(argv=None):
     extra = getattr(mod, "pre_run", None)
     pre = extra(tier, seed) if extra else None
     results = []
+    aborted = 0
     dump_dir = None
     if tier == "thorough" and getattr(mod, "CROSS_CHECK", False) and not a.only:
         import tempfile
@@ -136,8 +137,14 @@ def main(argv=None):
     if jobs:
         ctxm = mp.get_context("fork")
         with ctxm.Pool(min(a.procs, len(jobs)), maxtasksperchild=40) as pool:
+            stuck = 0
             for r in pool.imap_unordered(run_job, [(modname, j, seed) for j in jobs], chunksize=1):
                 results.append(r)
+                stuck += 1 if r.get("timeouts") else 0
+                if stuck >= 6:      # several jobs hit the per-path time limit: enough to replay; do not spend an hour on the rest
+                    pool.terminate()
+                    aborted = len(jobs) - len(results)
+                    break
                 if os.environ.get("PVX_VERBOSE"):
                     print(f"  job {r['job']['h']} {r['job']['cfg']} paths={r['paths']} q={r['queries']} solver={r['solver_s']} wall={r['wall_s']} "
                           f"viol={list(r['violated'])} unk={len(r['unknown'])} unsup={r['unsupported'][:1]} slow={r['slow'][:2]}", flush=True)
@@ -152,6 +159,8 @@ def main(argv=None):
         for k, v in r["proved"].items():
             proved[k] = proved.get(k, 0) + v
     inconclusive, violations_new, known_hit, replays = [], [], {}, 0
+    if aborted:
+        inconclusive.append(f"run cut short after 6 jobs ran into the per-path time limit: {aborted} jobs not executed")
     witnesses_ok = witnesses_bad = 0
     for r in results:
         jn = f"{r['job']['h']} {r['job']['cfg']}"
